@@ -479,9 +479,13 @@ func intSize(i starlark.Int) string {
 func (e *eng) checkInt(i starlark.Int, mode int) *bad {
 	quiet := mode != full
 	want := i.BigInt()
-	size := intSize(i)
+	cov := intSize(i) // fine classes for coverage
 	if want.Sign() < 0 {
-		size = "negative-" + size
+		cov = "negative-" + cov
+	}
+	size := "fits-int64" // coarse classes for violation keys
+	if !want.IsInt64() {
+		size = "beyond-int64"
 	}
 	det := func(extra map[string]any) map[string]any {
 		m := map[string]any{"kind": "int", "value": want.String(), "value_hex": want.Text(16)}
@@ -495,7 +499,7 @@ func (e *eng) checkInt(i starlark.Int, mode int) *bad {
 		return &bad{"C15 repr-fails int", fmt.Sprintf("repr(int %s) failed: err=%v panic=%v", want, err, p), det(map[string]any{"err": fmt.Sprint(err), "panic": fmt.Sprint(p)})}
 	}
 	if !quiet {
-		e.cover("int_sizes", size)
+		e.cover("int_sizes", cov)
 		e.c.Count("law_eval_repr_int", 1)
 	}
 	v, err, p := e.eval(rs)
